@@ -107,6 +107,47 @@ def mentions_opaque(terms):
     return False
 
 
+def opaque_consts(terms):
+    seen, stack, out = set(), list(terms), {}
+    while stack:
+        x = stack.pop()
+        if x.get_id() in seen:
+            continue
+        seen.add(x.get_id())
+        if z3.is_const(x) and x.decl().kind() == z3.Z3_OP_UNINTERPRETED and x.decl().name().startswith('opaque.') and z3.is_bool(x):
+            out[x.decl().name()] = x
+        if z3.is_quantifier(x):
+            stack.append(x.body())
+        else:
+            stack.extend(x.children())
+    return list(out.values())
+
+
+def opaque_independent(conds, goal, timeout_ms, model=None, leaves=None):
+    """The refutation does not hinge on the outcome of comparisons with unmodelled library values: for the inputs of the
+    counter-model, no outcome of those comparisons that is compatible with this path makes the clause true."""
+    cs = opaque_consts(list(conds) + [goal])
+    if not cs:
+        return True
+    fixed = []
+    if model is not None and leaves:
+        for name, (kind, t) in leaves.items():
+            terms = []
+            if kind in ('real', 'int', 'choice', 'bool', 'label'):
+                terms = [t]
+            elif kind == 'complex':
+                terms = list(t)
+            for x in terms:
+                try:
+                    fixed.append(x == model.eval(x, model_completion=True))
+                except Exception:      # noqa
+                    return False
+    else:
+        return False
+    st, _, _, _ = solve(list(conds) + fixed + [goal], min(timeout_ms, 5000), want_model=False, use_cvc5=False)
+    return st == 'unsat'
+
+
 def solve_quantified(conds, goal, timeout_ms, bigsums=()):
     """Goals over abstract sequences: plain SMT with quantifier instantiation; sums get their extensionality facts first.
     First attempt without the quantified axiom instances of cos/sin/... (dropping assumptions is sound for a proof and
@@ -372,6 +413,7 @@ class Engine:
         g = SymGen()
         from . import seq
         seq.reset()
+        CTX.__dict__['memo_tables'] = {}          # lru_cache tables live for one path execution
         inputs = I.call(cls.lookup('inputs'), [g], {})
         inputs = force(inputs)
         if not isinstance(inputs, IDict):
@@ -578,8 +620,9 @@ class Engine:
                 any_failed = any(x['status'] == 'failed' for x in oblig.values())
                 budget = timeout_ms if not (any_failed or spent_unknown >= 3) else min(timeout_ms, 1000)
                 st, model, ms, be = solve_goal(conds, goal, budget, getattr(rec, 'bigsums', ()))
-                if st == 'sat' and mentions_opaque(list(conds) + [goal]):
+                if st == 'sat' and mentions_opaque(list(conds) + [goal]) and not opaque_independent(conds, goal, budget, model, rec.leaves):
                     # the "counter-model" chooses the outcome of a comparison with an unmodelled library value: that is no verdict
+                    # (it stands only if a counter-model exists whichever way those comparisons come out)
                     st, be = 'unknown', be + ' (depends on an unmodelled library value)'
                     if 'obligation depends on an unmodelled library value (comparison with an opaque result)' not in out['notes']:
                         out['notes'].append('obligation depends on an unmodelled library value (comparison with an opaque result)')
